@@ -70,6 +70,7 @@ func verifyFunc(p *Program, fn *ssa.Function, fc *FuncContract) (u *UnitResult) 
 	vc := newVC(p, name)
 	u.VC = vc
 	defer catchUnit(u)
+	vc.logWrites = fc.mentions("wrote(")
 	if fc.Trusted {
 		return u
 	}
